@@ -81,6 +81,11 @@ ObsFails(d, rf, o) ==
          (o.eq = 1) = agree /\ (o.eqr = 1) = agree /\ (o.ne = 1) = ~agree
       THEN {} ELSE {"eq"})
 \cup (IF (o.diff = {}) = CellsAgree(d.cells, rf.cells) THEN {} ELSE {"diff_empty"})
+\* displays derived from the display are displays: affected_area is the tight box of THEIR touched cells (o.daa of the
+\* diff, o.swaa / o.mpaa of swap_xy() / map(identity)), swap_xy transposes the cells, map with the identity keeps them
+\cup (IF IsTightBox([p \in { <<t[1], t[2]>> : t \in o.diff } |-> 0], o.daa) THEN {} ELSE {"affected_area_of_diff"})
+\cup (IF o.sw = { <<t[2], t[1], t[3]>> : t \in Triples(d.cells) } /\ IsTightBox(SwapXY(d.cells), o.swaa) THEN {} ELSE {"swap_xy"})
+\cup (IF o.mp = Triples(d.cells) /\ IsTightBox(d.cells, o.mpaa) THEN {} ELSE {"map_identity"})
 
 \* cells: triples of a display all of whose colours have a character; back: outcome and triples of
 \* from_pattern(Lines(Debug(display)))
